@@ -85,7 +85,15 @@ def eval_objective(case):
         prm.add("p_initial", value=p_i)
         zero = np.zeros(n)
         base = np.asarray(fpm._obj_function(prm, days, zero, pvt, sched), dtype=float)  # = M * rf
+        # history: same parameters, same table object, same days - another pressure history
+        sched_b = schedule({"constant": "ramp", "stepwise": "constant", "ramp": "stepwise"}[case["sched"]], n, p_i)
+        other = np.asarray(fpm._obj_function(prm, days, zero, pvt, sched_b), dtype=float)
     nx = rec.nx[-1] if rec.nx else 80
+    rf_b = forward(pvt, days, tau, p_i, sched_b, nx)
+    if not np.all(np.abs(other - M * rf_b) <= 1e-8 * M):
+        viol.append(V("objective/forward-model-after-history", "a second objective call with the same tau, M, p_initial, "
+                      "table object and days but another frac-face history does not follow that history (max diff "
+                      f"{np.max(np.abs(other - M * rf_b)):.3g})", case=case))
     rf = forward(pvt, days, tau, p_i, sched, nx)
     if not np.all(np.abs(base - M * rf) <= 1e-8 * M):
         k = int(np.argmax(np.abs(base - M * rf)))
@@ -134,13 +142,14 @@ def eval_fit(case):
         gas[[5, 11, n // 2]] = 0.0          # zero-rate days
         press[[7, n // 2 + 3]] = np.nan     # missing pressures
         gas[3] = -1.0                        # a negative correction counts as 'no production'
-    prod = pd.DataFrame({"Days": days * 1.0 + 100.0, "Gas": gas, "Pressure": press, "Other": np.arange(n)})
+    prod = pd.DataFrame({"Days": days * 1.0, "Gas": gas, "Pressure": press, "Other": np.arange(n)})  # day 0 produces
     snap = prod.copy(deep=True)
     viol = []
     with Recorder() as rec, warnings.catch_warnings():
         warnings.simplefilter("ignore")
         try:
-            result = fit_production_pressure(prod, pvt, p_i * 0.95, filter_window_size=case["window"],
+            guess = {"inside": p_i * 0.95, "below": 0.5 * np.nanmax(press), "above": 12500.0}[case.get("guess", "inside")]
+            result = fit_production_pressure(prod, pvt, guess, filter_window_size=case["window"],
                                              pressure_imax=12000.0, inplace_max=1e6,
                                              filter_zero_prod_days=case["filter"], n_iter=case["n_iter"])
         except Exception as e:  # noqa: BLE001
@@ -192,7 +201,7 @@ def eval_fit(case):
     if res.shape != (int(keep.sum()),) or not np.all(np.isfinite(res)):
         viol.append(V("fit/residual", f"residual shape {res.shape}, finite {bool(np.all(np.isfinite(res)))}", case=case))
     return {"violations": viol[:3], "outcome": f"fit:{'f' if case['filter'] else 'n'}:{case['window']}",
-            "key": ("f", n, tau, M, p_i, case["sched"], case["filter"], case["window"], case["n_iter"], dirty)}
+            "key": ("f", n, tau, M, p_i, case["sched"], case["filter"], case["window"], case["n_iter"], dirty, case.get("guess"))}
 
 
 def evaluate(case):
@@ -217,6 +226,8 @@ def cases(tier, seed):
             continue
         out.append({"kind": "fit", "tau": tau, "M": M, "p_i": p_i, "sched": s, "n": n, "filter": flt, "window": w,
                     "n_iter": it, "dirty": bool(flt)})  # filter off is only defined on clean data
+        if w is None and it == iters[-1]:  # a starting guess outside the admissible range must not widen it
+            out += [dict(out[-1], guess="below"), dict(out[-1], guess="above")]
     return out
 
 
